@@ -237,7 +237,7 @@ fn run_case(st: &mut Stats, c: &Case, order: u64, fm: FaultMode, rng: &mut Split
         ff.push((api, ex));
     }
     // informational: do the four APIs agree on the text?
-    if ff.iter().filter(|(a, _)| *a != Api::Decor).any(|(_, e)| e.out != ff[0].1.out) {
+    if ff.iter().filter(|(a, _)| *a != Api::Decor && *a != Api::Flags).any(|(_, e)| e.out != ff[0].1.out) {
         st.api_text_mismatch += 1;
     }
     if fm == FaultMode::None {
